@@ -131,6 +131,8 @@ struct Scenario {
     post: bool,
     /// before the query, an add of the queried class to a stored track without that class has failed
     failed_add: bool,
+    /// after the query was dispatched and before anything of it is read: a blocking merge into stored track 1
+    merge_before_read: bool,
     /// an earlier query on the same store: 0 = none, 1 = abandoned (both streams dropped unread),
     /// 2 = results read, error stream dropped unread, 3 = dispatched and NOT read yet: still in flight while the
     /// query under test runs, read afterwards
@@ -188,6 +190,13 @@ fn run_scenario(sc: &Scenario) -> Obs {
         "owned2" => store.owned_track_distances(&[1, 2], 0, sc.only_baked),
         _ => store.owned_track_distances(&[2, 4, 1], 0, sc.only_baked),
     };
+    if sc.merge_before_read {
+        // the query is dispatched, nothing of it has been read: a blocking merge into stored track 1 now - the query
+        // describes the store as it was when it was issued, whatever the workers have got to
+        let (ext, _) = super::c09::external_track(9);
+        store.merge_external(1, &ext, None, true).expect("merge into stored track 1");
+        let _ = take_notifications();
+    }
     // errors first (as the trackers do), then the results; either through all() or through the iterators
     let (oks, errs) = if sc.drop_ok {
         drop(ok);
@@ -245,6 +254,14 @@ fn expected(sc: &Scenario) -> (Vec<Item>, usize, Vec<TrackDump>) {
             _ => vec![stored[1].clone(), stored[3].clone(), stored[0].clone()],
         };
         let (oks, errs) = reference(&cands, &stored, 0, sc2.only_baked, sc2.post);
+        let mut stored = stored;
+        if sc2.merge_before_read {
+            // the store afterwards holds the merged track; the query's answer is about the store before
+            let (_, mext) = super::c09::external_track(9);
+            let list: Vec<u64> = mext.obs.keys().cloned().collect();
+            let dest = stored.iter_mut().find(|t| t.id == 1).expect("track 1 stored");
+            super::tmodel::m_merge(dest, &mext, &list, true, &mut super::tmodel::MCtx::new(FaultPlan::default())).expect("model merge");
+        }
         (oks, errs, stored)
     })
     .unwrap_or_else(|e| machinery_error(&format!("C10 reference computation failed: {e}")))
@@ -252,7 +269,7 @@ fn expected(sc: &Scenario) -> (Vec<Item>, usize, Vec<TrackDump>) {
 
 pub fn run(tier: Tier) -> Report {
     let rep = Report::new("C10", tier);
-    rep.set_rule("scenarios = store contents (4-6 tracks: mixed compatibility class, status Pending / Ready / Wasted, 0..2 observations in classes {0,1}, a pair beyond the metric cut-off) x candidate batch {one foreign, two foreign, foreign with a stored id, owned [1], owned [1,2], owned [2,4,1]} x only_baked x result streams consumed through all() / into_iter() x {fresh store, after an earlier query that was abandoned unread, after one whose error stream was dropped unread, while an earlier foreign query is still in flight (dispatched before, read after: it must deliver its complete result), result half dropped unread and only the error half read; a metric whose post-processing hook keeps only the closest pairs of each track comparison; after a failed add (optimize() error) of the queried class to a stored track that has none of it} x shard count; for each scenario every schedule of the store workers and the caller at command granularity within the preemption bound (window = the query until both result streams are drained); oracle: result multiset = reference cartesian product, error count, store unchanged, identical across schedules. states = executions (schedules), transitions = decision points.");
+    rep.set_rule("scenarios = store contents (4-6 tracks: mixed compatibility class, status Pending / Ready / Wasted, 0..2 observations in classes {0,1}, a pair beyond the metric cut-off) x candidate batch {one foreign, two foreign, foreign with a stored id, owned [1], owned [1,2], owned [2,4,1]} x only_baked x result streams consumed through all() / into_iter() x {fresh store, after an earlier query that was abandoned unread, after one whose error stream was dropped unread, while an earlier foreign query is still in flight (dispatched before, read after: it must deliver its complete result), result half dropped unread and only the error half read; a metric whose post-processing hook keeps only the closest pairs of each track comparison; after a failed add (optimize() error) of the queried class to a stored track that has none of it; a blocking merge into a stored track after the query was dispatched and before anything of it is read (the answer is about the store as it was)} x shard count; for each scenario every schedule of the store workers and the caller at command granularity within the preemption bound (window = the query until both result streams are drained); oracle: result multiset = reference cartesian product, error count, store unchanged, identical across schedules. states = executions (schedules), transitions = decision points.");
     rep.assume("macro-step granularity: branching at named schedule points (worker dequeues a command; caller finished queueing; owned query between 'commands sent' and 're-added') and whenever the running task blocks");
     let shard_counts: Vec<usize> = tier.pick(vec![1, 2], vec![1, 2, 3]);
     let bound = usize::MAX / 4; // every schedule at command granularity (the spaces are small); the wall cap is the only limit
@@ -261,7 +278,7 @@ pub fn run(tier: Tier) -> Report {
     let mut vacuity: BTreeMap<String, serde_json::Value> = BTreeMap::new();
     for &shards in &shard_counts {
         for batch in batches {
-            for (only_baked, iter, prior) in [(false, false, 0u8), (true, false, 0), (false, true, 0), (true, true, 0), (false, false, 1), (false, false, 2), (false, true, 1), (false, false, 3), (false, false, 4), (false, false, 5), (true, false, 5), (false, false, 6), (true, true, 6)] {
+            for (only_baked, iter, prior) in [(false, false, 0u8), (true, false, 0), (false, true, 0), (true, true, 0), (false, false, 1), (false, false, 2), (false, true, 1), (false, false, 3), (false, false, 4), (false, false, 5), (true, false, 5), (false, false, 6), (true, true, 6), (false, false, 7), (false, true, 7)] {
                 if tier == Tier::Quick && (only_baked && (batch == "foreign2" || batch == "owned3") || iter && only_baked && batch != "foreign-stored-id") {
                     continue;
                 }
@@ -269,7 +286,7 @@ pub fn run(tier: Tier) -> Report {
                 if prior > 0 && prior != 4 && (tier == Tier::Quick && !(batch == "foreign1" || batch == "owned2") || iter && batch != "foreign1") {
                     continue;
                 }
-                let sc = Scenario { shards, batch, only_baked, ntracks: if batch == "owned3" { 5 } else if only_baked { 6 } else { 4 }, iter, drop_ok: prior == 4, post: prior == 5, failed_add: prior == 6, prior: if prior >= 5 { 0 } else { prior } };
+                let sc = Scenario { shards, batch, only_baked, ntracks: if batch == "owned3" { 5 } else if only_baked { 6 } else { 4 }, iter, drop_ok: prior == 4, post: prior == 5, failed_add: prior == 6, merge_before_read: prior == 7, prior: if prior >= 5 { 0 } else { prior } };
                 if rep.out_of_time() {
                     rep.cap_hit(&format!("wall budget reached before scenario {sc:?}"));
                     continue;
@@ -332,7 +349,7 @@ pub fn run(tier: Tier) -> Report {
                 if stats.truncated {
                     rep.cap_hit(&format!("scenario {sc:?} truncated by the wall cap after {} schedules", stats.executions));
                 }
-                vacuity.insert(format!("{batch}/baked={only_baked}/shards={shards}/{}{}", if iter { "iter" } else { "all" }, match prior { 0 => "", 1 => "/after-abandoned-query", 2 => "/after-half-read-query", 3 => "/while-an-earlier-query-is-in-flight", 4 => "/result-half-dropped-unread", 5 => "/closest-pairs-post-processing", _ => "/after-a-failed-add-of-the-queried-class" }), json!({"schedules":stats.executions,"max_decision_points":stats.max_points,"distinct_outcomes":n_out,"distinct_arrival_orders":arrivals.lock().unwrap().len(),"bound":"all","truncated":stats.truncated}));
+                vacuity.insert(format!("{batch}/baked={only_baked}/shards={shards}/{}{}", if iter { "iter" } else { "all" }, match prior { 0 => "", 1 => "/after-abandoned-query", 2 => "/after-half-read-query", 3 => "/while-an-earlier-query-is-in-flight", 4 => "/result-half-dropped-unread", 5 => "/closest-pairs-post-processing", 6 => "/after-a-failed-add-of-the-queried-class", _ => "/blocking-merge-before-the-results-are-read" }), json!({"schedules":stats.executions,"max_decision_points":stats.max_points,"distinct_outcomes":n_out,"distinct_arrival_orders":arrivals.lock().unwrap().len(),"bound":"all","truncated":stats.truncated}));
                 if rep.want_sample(total_exec) || vacuity.len() == 3 {
                     rep.sample(json!({"scenario":scj,"expected_pairs":exp_ok.iter().map(|i| (i.0,i.1)).collect::<Vec<_>>(),"expected_errors":exp_err,"schedules":stats.executions}));
                 }
@@ -341,8 +358,8 @@ pub fn run(tier: Tier) -> Report {
     }
     // fine tier: branch at every synchronisation operation (one preemption) on the smallest scenarios
     let fine: Vec<Scenario> = tier.pick(
-        vec![Scenario { shards: 1, batch: "owned2", only_baked: false, ntracks: 4, iter: false, drop_ok: false, post: false, failed_add: false, prior: 0 }, Scenario { shards: 2, batch: "foreign1", only_baked: false, ntracks: 4, iter: true, drop_ok: false, post: false, failed_add: false, prior: 1 }, Scenario { shards: 2, batch: "owned2", only_baked: false, ntracks: 4, iter: false, drop_ok: false, post: false, failed_add: false, prior: 0 }, Scenario { shards: 1, batch: "owned2", only_baked: false, ntracks: 4, iter: false, drop_ok: false, post: false, failed_add: false, prior: 3 }, Scenario { shards: 2, batch: "owned2", only_baked: false, ntracks: 4, iter: false, drop_ok: false, post: false, failed_add: false, prior: 3 }],
-        vec![Scenario { shards: 1, batch: "owned2", only_baked: false, ntracks: 4, iter: false, drop_ok: false, post: false, failed_add: false, prior: 3 }, Scenario { shards: 2, batch: "owned2", only_baked: false, ntracks: 4, iter: false, drop_ok: false, post: false, failed_add: false, prior: 3 }, Scenario { shards: 1, batch: "owned2", only_baked: false, ntracks: 4, iter: false, drop_ok: false, post: false, failed_add: false, prior: 0 }, Scenario { shards: 2, batch: "foreign1", only_baked: false, ntracks: 4, iter: true, drop_ok: false, post: false, failed_add: false, prior: 1 }, Scenario { shards: 2, batch: "owned2", only_baked: false, ntracks: 4, iter: true, drop_ok: false, post: false, failed_add: false, prior: 0 }, Scenario { shards: 2, batch: "foreign2", only_baked: true, ntracks: 4, iter: false, drop_ok: false, post: false, failed_add: false, prior: 0 }],
+        vec![Scenario { shards: 1, batch: "owned2", only_baked: false, ntracks: 4, iter: false, drop_ok: false, post: false, failed_add: false, merge_before_read: false, prior: 0 }, Scenario { shards: 2, batch: "foreign1", only_baked: false, ntracks: 4, iter: true, drop_ok: false, post: false, failed_add: false, merge_before_read: false, prior: 1 }, Scenario { shards: 2, batch: "owned2", only_baked: false, ntracks: 4, iter: false, drop_ok: false, post: false, failed_add: false, merge_before_read: false, prior: 0 }, Scenario { shards: 1, batch: "owned2", only_baked: false, ntracks: 4, iter: false, drop_ok: false, post: false, failed_add: false, merge_before_read: false, prior: 3 }, Scenario { shards: 2, batch: "owned2", only_baked: false, ntracks: 4, iter: false, drop_ok: false, post: false, failed_add: false, merge_before_read: false, prior: 3 }],
+        vec![Scenario { shards: 1, batch: "owned2", only_baked: false, ntracks: 4, iter: false, drop_ok: false, post: false, failed_add: false, merge_before_read: false, prior: 3 }, Scenario { shards: 2, batch: "owned2", only_baked: false, ntracks: 4, iter: false, drop_ok: false, post: false, failed_add: false, merge_before_read: false, prior: 3 }, Scenario { shards: 1, batch: "owned2", only_baked: false, ntracks: 4, iter: false, drop_ok: false, post: false, failed_add: false, merge_before_read: false, prior: 0 }, Scenario { shards: 2, batch: "foreign1", only_baked: false, ntracks: 4, iter: true, drop_ok: false, post: false, failed_add: false, merge_before_read: false, prior: 1 }, Scenario { shards: 2, batch: "owned2", only_baked: false, ntracks: 4, iter: true, drop_ok: false, post: false, failed_add: false, merge_before_read: false, prior: 0 }, Scenario { shards: 2, batch: "foreign2", only_baked: true, ntracks: 4, iter: false, drop_ok: false, post: false, failed_add: false, merge_before_read: false, prior: 0 }],
     );
     let fine_bound = tier.pick(2usize, 3usize);
     for sc in fine {
@@ -373,7 +390,7 @@ pub fn run(tier: Tier) -> Report {
     rep.extra("scenarios", json!(vacuity));
     rep.extra("preemption_bound_completed", json!("unbounded: every schedule at command granularity; fine tier: 2 (thorough 3) departures from the default schedule at any synchronisation operation"));
     // determinism self-check: the same schedule twice gives the same observation
-    let sc = Scenario { shards: 2, batch: "foreign2", only_baked: false, ntracks: 4, iter: false, drop_ok: false, post: false, failed_add: false, prior: 0 };
+    let sc = Scenario { shards: 2, batch: "foreign2", only_baked: false, ntracks: 4, iter: false, drop_ok: false, post: false, failed_add: false, merge_before_read: false, prior: 0 };
     let cfg = sched::ExploreCfg { window: (1, 1), ..Default::default() };
     let f = std::sync::Arc::new(move || run_scenario(&sc));
     let mut replays = 0;
@@ -409,7 +426,7 @@ pub fn replay(file: &serde_json::Value) -> i32 {
         "owned2" => "owned2",
         _ => "owned3",
     };
-    let scen = Scenario { shards: sc["shards"].as_u64().unwrap_or(1) as usize, batch, only_baked: sc["only_baked"].as_bool().unwrap_or(false), ntracks: sc["tracks"].as_u64().unwrap_or(4) as usize, iter: sc["consumed_through"].as_str() == Some("into_iter()"), drop_ok: sc["earlier_query"].as_u64() == Some(4), post: sc["earlier_query"].as_u64() == Some(5), failed_add: sc["earlier_query"].as_u64() == Some(6), prior: match sc["earlier_query"].as_u64().unwrap_or(0) as u8 { 5 | 6 => 0, p => p } };
+    let scen = Scenario { shards: sc["shards"].as_u64().unwrap_or(1) as usize, batch, only_baked: sc["only_baked"].as_bool().unwrap_or(false), ntracks: sc["tracks"].as_u64().unwrap_or(4) as usize, iter: sc["consumed_through"].as_str() == Some("into_iter()"), drop_ok: sc["earlier_query"].as_u64() == Some(4), post: sc["earlier_query"].as_u64() == Some(5), failed_add: sc["earlier_query"].as_u64() == Some(6), merge_before_read: sc["earlier_query"].as_u64() == Some(7), prior: match sc["earlier_query"].as_u64().unwrap_or(0) as u8 { 5 | 6 | 7 => 0, p => p } };
     let fine = sc["granularity"].is_string();
     let choices: Vec<usize> = r["schedule"]["choices"].as_array().map(|a| a.iter().map(|x| x.as_u64().unwrap_or(0) as usize).collect()).unwrap_or_default();
     let (exp_ok, exp_err, _) = expected(&scen);
